@@ -165,3 +165,107 @@ fn c15_from2_sorted_reads() {
     kani::cover!(i0 != i1 && n1 != n2, "distinct indices, unequal lengths");
     core::mem::forget((got, lz));
 }
+
+// ---------------------------------------------------------------------------------------------
+// LazyDeltaVec<.., DeltaSub>: out[h] = src[h] - src[starts[h]-1]  (0 if starts[h] == 0), saturating
+fn delta_expect(d: &[u64; MN], st: &[usize; MN], h: usize) -> u64 {
+    let cur = d[h];
+    let ago = if st[h] == 0 { 0 } else { d[st[h] - 1] };
+    if cur >= ago { cur - ago } else { 0 }
+}
+
+#[kani::proof]
+#[kani::unwind(7)]
+#[kani::stub(std::vec::Vec::<T>::with_capacity, stubs::with_capacity_stub)]
+#[kani::stub(std::vec::Vec::<T>::reserve, stubs::reserve_stub)]
+fn c15_delta_sub_reads() {
+    delta_body(false);
+}
+
+/// same with *empty* windows allowed (start = h + 1: the look-back index is h itself, result 0)
+#[kani::proof]
+#[kani::unwind(7)]
+#[kani::stub(std::vec::Vec::<T>::with_capacity, stubs::with_capacity_stub)]
+#[kani::stub(std::vec::Vec::<T>::reserve, stubs::reserve_stub)]
+fn c15_delta_sub_empty_windows() {
+    delta_body(true);
+}
+
+fn delta_body(allow_empty: bool) {
+    let src = Mock::<usize, u64>::any(3);
+    let d = src.data;
+    let n = src.n();
+    // monotone window starts, starts[h] <= h (non-empty windows) or h + 1 (empty window)
+    let st: [usize; MN] = kani::any();
+    let mut i = 0;
+    while i < MN {
+        kani::assume(st[i] <= if allow_empty { i + 1 } else { i });
+        if i > 0 {
+            kani::assume(st[i - 1] <= st[i]);
+        }
+        i += 1;
+    }
+    let starts: Arc<[usize]> = Arc::from(st);
+    let s2 = starts.clone();
+    let lz = LazyDeltaVec::<usize, u64, u64, DeltaSub>::new("d", Version::ZERO, Box::new(src), Version::ZERO, move || s2.clone());
+    assert!(lz.len() == n);
+    let (from, to) = any_range();
+    let k: usize = kani::any();
+    kani::assume(k < MN);
+    let cto = if to < n { to } else { n };
+    let cnt = if from < cto { cto - from } else { 0 };
+    let got = lz.fold_range_at(from, to, Out::<u64>::new(), |mut o, v| {
+        o.push(v);
+        o
+    });
+    assert!(got.n == cnt);
+    if k < cnt {
+        assert!(got.v[k] == Some(delta_expect(&d, &st, from + k)));
+    }
+    let one = lz.collect_one_at(k);
+    assert!(one == if k < n { Some(delta_expect(&d, &st, k)) } else { None });
+    kani::cover!(cnt == 2 && from == 1 && st[1] == 0 && st[2] == 1, "range starting in the warm-up zone with a later look-back before `from`");
+    kani::cover!(cnt == 3, "whole vector");
+    core::mem::forget((lz, starts));
+}
+
+// LazyAggVec<.., Sparse>: out[i] = last source value of group i (None for an empty group)
+#[kani::proof]
+#[kani::unwind(7)]
+#[kani::stub(std::vec::Vec::<T>::with_capacity, stubs::with_capacity_stub)]
+#[kani::stub(std::vec::Vec::<T>::reserve, stubs::reserve_stub)]
+fn c15_agg_sparse_reads() {
+    let src = Mock::<usize, u32>::any(3);
+    let d = src.data;
+    let n = src.n();
+    // first-index mapping: 3 groups, monotone, within 0..=n
+    let mp: [usize; 3] = kani::any();
+    kani::assume(mp[0] <= mp[1] && mp[1] <= mp[2] && mp[2] <= n);
+    let mapping: Arc<[usize]> = Arc::from(mp);
+    let m2 = mapping.clone();
+    let lz = LazyAggVec::<usize, Option<u32>, usize, usize, u32>::new("a", Version::ZERO, Version::ZERO, Box::new(src), move || m2.clone());
+    assert!(lz.len() == 3);
+    let expect = |g: usize| -> Option<u32> {
+        let cur = mp[g];
+        let next = if g + 1 < 3 { mp[g + 1] } else { n };
+        if next == 0 || cur >= next { None } else { Some(d[next - 1]) }
+    };
+    let k: usize = kani::any();
+    kani::assume(k < 4);
+    let one = lz.collect_one_at(k);
+    assert!(one == if k < 3 { Some(expect(k)) } else { None });
+    let (from, to) = any_range();
+    let cto = if to < 3 { to } else { 3 };
+    let cnt = if from < cto { cto - from } else { 0 };
+    let got = lz.fold_range_at(from, to, Out::<Option<u32>>::new(), |mut o, v| {
+        o.push(v);
+        o
+    });
+    assert!(got.n == cnt);
+    if k < cnt {
+        assert!(got.v[k] == Some(expect(from + k)));
+    }
+    kani::cover!(mp[1] == mp[2] && mp[1] > 0 && k == 1, "empty group that is not at the source start");
+    kani::cover!(cnt == 3 && n == 3, "all groups");
+    core::mem::forget((lz, mapping));
+}
